@@ -66,12 +66,12 @@ class StringParser:
         # EOS?
         i = start = self.index
         if i >= self.end:
-            return None
+            return (None, True)
 
         # directly on delimiter?
         if self.text[i] in delim:
             self.index = i+1
-            return self.text[i]
+            return (self.text[i], True)
 
         # scan
         tok = []
@@ -85,7 +85,7 @@ class StringParser:
             i += 1
         tok.append(self.text[start:i])
         self.index = i
-        return "".join(tok)
+        return ("".join(tok), False)
 
     def getRestOfName(self):
         """Get remainder of bare variable name"""
@@ -126,9 +126,12 @@ class StringParser:
                       such substitutions.
         """
         s = []
-        tok = self.nextToken(delim)
-        while tok not in delim:
-            if tok == '"':
+        tok, isDelim = self.nextToken(delim)
+        while not (isDelim and tok in delim):
+            if not isDelim:
+                # Plain text. Might look like a delimiter if it was escaped.
+                s.append(tok)
+            elif tok == '"':
                 s.append(self.getString(['"'], False, subst))
             elif tok == '\'':
                 s.append(self.getSingleQuoted())
@@ -146,9 +149,7 @@ class StringParser:
                 if None not in delim:
                     raise ParseError('Unexpected end of string')
                 break
-            else:
-                s.append(tok)
-            tok = self.nextToken(delim)
+            tok, isDelim = self.nextToken(delim)
         else:
             if keep: self.index -= 1
         return "".join(s)
